@@ -55,9 +55,7 @@ func VerifC09Locks() {
 	if r2 {
 		want += y2
 	}
-	if r1 && r2 {
-		vCover("both-released-by-one-tick")
-	}
+	vRequire(r1 && r2, "both-released-by-one-tick")
 	if !r1 && !r2 {
 		vCover("tick-before-any-expiry")
 		vAssert(vEventCount() == 0 || viaNetmap, "C09/early-tick-changes-nothing")
